@@ -42,8 +42,8 @@ if st:
                 "Each patch compiles, leaves behaviour unchanged (renames, helper extraction, added log lines, control-flow",
                 "restructuring, equivalent API choices) and touches exactly the constructs the rules anchor on. `tools/selftest.py`",
                 "applies each and runs all twenty quick checks; any non-zero exit is a false alarm of the machinery.", "",
-                "Two sources. (a) 44 patches written while building, each aimed at the constructs the rules anchor on. (b) 96 patches",
-                "from fourteen sub-agents (three batches) that were given a scratch worktree, one area of the code each and the",
+                "Two sources. (a) 44 patches written while building, each aimed at the constructs the rules anchor on. (b) 144 patches",
+                "from twenty sub-agents (four batches) that were given a scratch worktree, one area of the code each and the",
                 "instruction to produce realistic behaviour-preserving pull requests - extract function / method, closure <-> named fn,",
                 "free fn <-> method, renames of private items, parameters bundled into new structs, enum variants renamed, `?` <->",
                 "`match`, loops <-> iterator adaptors, harmless additions - and nothing about the checks. Each compiled and passed the",
@@ -56,8 +56,10 @@ if st:
                 "returned as tail expressions; nested closures in `SubscriptionSender::send`; a `map` closure as the batch-entry",
                 "classifier; ...). After that 45 of the first 48 are quiet on all twenty checks; the remaining three are kept in",
                 "`benign_limits/` with the reason each alarm is a false one and why the rule cannot see it. The third batch (48 small",
-                "patches, run last) was quiet on 45 as delivered and on all 48 after three rule repairs (§2c, eleventh round).",
-                "`benign/ind*` holds the 93.", "",
+                "patches) was quiet on 45 as delivered and on all 48 after three rule repairs (§2c, eleventh round); the fourth batch",
+                "(48 small patches: renames of private items, idiom modernisation, small extractions / inlinings, lint clean-ups; run",
+                "last) on 47 as delivered and on all 48 after one (a helper that merges the two refusal branches of a subscribe call).",
+                "`benign/ind*` holds the 141.", "",
                 "| patch | files touched | result |", "|---|---|---|"]
         for b in ben:
             out.append("| %s | %s | %s |" % (b["name"], desc.get(b["name"], ""), "does not apply" if not b.get("applies") else ("quiet" if not b.get("alarms") else "FALSE ALARM " + ",".join(b["alarms"]))))
